@@ -5,11 +5,14 @@
   * the request body arrives as a JSON tree (text → tree by encoding/json in the harness, which also reports
     whether Go accepts the text at all); Go's struct-mapping rules for RPCRequest / Transaction are modelled;
   * the backend is an oracle `Script : method → Reply`;
-  * the wallet is a parameter: known addresses; the signed raw transaction itself is not computed here — a
-    forwarded eth_sendRawTransaction is described by the fields that must be recoverable from it.
+  * the wallet is a parameter: known addresses and its `Sign(from, txn, chainID)` function; the transaction handed
+    to it is the `ethsigner.Transaction` decoded from `params[0]` (`txOfJson`) with the nonce filled in, and the
+    forwarded eth_sendRawTransaction carries exactly the bytes the wallet returned (`Props/C09.submitted_recovers`
+    instantiates the wallet with the key-holding wallet of C08 and the signer of C01).
 -/
 import Lean.Data.Json
 import FFS.Model.EthTypes
+import FFS.Model.Tx
 import FFS.Gen.ProxyFacts
 namespace FFS.Model.Proxy
 open Lean FFS FFS.Model.EthTypes
@@ -39,7 +42,8 @@ deriving Inhabited
 /-- a request that reached the backend -/
 inductive Fwd where
   | plain (method : String) (params : List Json)
-  | rawTx (sendFrom : Bytes) (tx : Json) (nonce : Option Nat)   -- eth_sendRawTransaction for this from / fields / nonce
+  | rawTx (sendFrom : Bytes) (tx : Json) (nonce : Option Nat) (fields : Tx.Tx) (raw : Bytes)
+      -- eth_sendRawTransaction [hex raw]: `raw` = wallet.Sign(from, fields, chainID), `fields` decoded from `tx` + nonce
 deriving Inhabited
 
 def errResp (id : Json) (code : Int) : Resp := { version := "2.0", id := id, result := none, errorCode := some code }
@@ -98,6 +102,21 @@ def hexIntOf (j : Json) : Option (Option Nat) :=   -- none = error; some none = 
 
 structure Wallet where
   accounts : List Bytes      -- 20-byte addresses the wallet can sign for
+  /-- `wallet.Sign(ctx, txn, chainID)` for the address in `txn.From` -/
+  sign : Bytes → Tx.Tx → Outcome Bytes := fun _ _ => .ok []
+
+/-- the signing-relevant fields of the `ethsigner.Transaction` that `json.Unmarshal(params[0], &txn)` yields (for a
+    document `decodeTx` accepts), with `txn.Nonce` as supplied or looked up -/
+def txOfJson (kvs : List (String × Json)) (nonce : Option Nat) : Tx.Tx :=
+  let int (name : String) : Option Nat := match getField kvs name with | some v => (hexIntOf v).getD none | none => none
+  { nonce := nonce, gasPrice := int "gasPrice", tip := int "maxPriorityFeePerGas", feeCap := int "maxFeePerGas",
+    gasLimit := int "gas", value := int "value",
+    to := match getField kvs "to" with
+      | some (.str s) => (match addressSetString s.toList with | .ok a => some a | _ => none)
+      | _ => none,
+    data := match getField kvs "data" with
+      | some (.str s) => (hexDecode (trim0x s.toList)).getD []
+      | _ => [] }
 
 /-- `json.Unmarshal(params[0], &Transaction)`: `none` = error. Returns (from raw, nonce, tx ok) -/
 def decodeTx (j : Json) (kvs : List (String × Json)) : Option (Option Json × Option Nat) :=
@@ -155,15 +174,18 @@ def nonceLookup (script : Script) (fromRaw : Json) (nonce : Option Nat) : NonceL
         | none => .failed [countFwd a]
 
 /-- `wallet.Sign` + forward: only for an address the wallet holds -/
-def signAndSend (w : Wallet) (script : Script) (id : Json) (fwds : List Fwd) (fromRaw p0 : Json) (n : Option Nat) :
-    List Fwd × Resp × Bool :=
+def signAndSend (w : Wallet) (script : Script) (id : Json) (fwds : List Fwd) (fromRaw p0 : Json) (n : Option Nat)
+    (tx : Tx.Tx) : List Fwd × Resp × Bool :=
   match addrOfJson fromRaw with
   | none => (fwds, errResp id Gen.ProxyFacts.RPCCodeInternalError, true)
   | some a =>
     if !w.accounts.contains a then (fwds, errResp id Gen.ProxyFacts.RPCCodeInternalError, true)
     else
-      let res := syncRequest script id "eth_sendRawTransaction"
-      (fwds ++ [Fwd.rawTx a p0 n], res.1, res.2)
+      match w.sign a tx with
+      | .ok raw =>
+        let res := syncRequest script id "eth_sendRawTransaction"
+        (fwds ++ [Fwd.rawTx a p0 n tx raw], res.1, res.2)
+      | _ => (fwds, errResp id Gen.ProxyFacts.RPCCodeInternalError, true)
 
 /-- `processEthSendTransaction` -/
 def sendTransaction (mem : Members) (w : Wallet) (script : Script) (id : Json) (params : List Json) :
@@ -178,7 +200,7 @@ def sendTransaction (mem : Members) (w : Wallet) (script : Script) (id : Json) (
       match nonceLookup script fromRaw nonce with
       | .badFrom => ([], if Gen.ProxyFacts.badFromIsError then errResp id Gen.ProxyFacts.RPCCodeInvalidRequest else default, true)
       | .failed fwds => (fwds, errResp id Gen.ProxyFacts.RPCCodeInternalError, true)
-      | .got fwds n => signAndSend w script id fwds fromRaw p0 n
+      | .got fwds n => signAndSend w script id fwds fromRaw p0 n (txOfJson (mem p0) n)
 
 def accountsResp (w : Wallet) (id : Json) : Resp :=
   { version := "2.0", id := id, errorCode := none,
